@@ -293,6 +293,8 @@ class H:
                 await self.corrupt(a[1])
             elif op == "foreign_exit":
                 await self.foreign_exit(a[1], exp)
+            elif op == "race":
+                self.race_prep(a[1], exp)
             elif op == "raise":
                 e = self.tag.make(a[1])
                 sim.log("raise", where="act", ctx=exp, exc=describe(e))
@@ -335,9 +337,57 @@ class H:
             except BaseException as e:
                 if not is_cancel(e):
                     sim.log("svc_escape", task=name, exc=describe(e))
+                # the task's own context is left by this very exception: callbacks registered
+                # on it with pass_exception get it (a cancellation, when the task is stopped)
+                sim.log("body_end", ctx=fid, how="cancel" if is_cancel(e) else "raise", exc=describe(e), closed=c.closed)
                 raise
+            else:
+                sim.log("body_end", ctx=fid, how="return", exc=None, closed=c.closed)
 
         await owner.start_service_task(body, name, teardown_action=spec.get("action", "cancel"))
+
+    def race_prep(self, spec: dict, cid: str | None) -> None:
+        """Registers a slow async factory on the (open) current context and a teardown
+        callback that makes two tasks look its product up at the same time: lookups are
+        allowed during teardown, racing or not."""
+        ctx = self.ctxs.get(cid) if cid else None
+        if ctx is None:
+            return
+        sim = self.sim
+        nm = "race_" + spec["id"]
+
+        async def slow() -> Res2:
+            await sim.pause(1, 0.25)
+            return Res2()
+
+        ctx.add_resource_factory(slow, nm, types=[Res2])
+        h = self
+
+        async def racer() -> None:
+            await h._race(ctx, cid, nm)
+
+        ctx.add_teardown_callback(racer)
+
+    async def _race(self, ctx: Any, cid: str, nm: str) -> None:
+        sim = self.sim
+        res: dict[str, str] = {}
+
+        async def one(k: str) -> None:
+            try:
+                v = await ctx.get_resource(Res2, nm)
+                res[k] = "ok" if isinstance(v, Res2) else f"value:{type(v).__name__}"
+            except BaseException as e:  # noqa: BLE001
+                if is_cancel(e):
+                    res[k] = "cancelled"
+                    raise
+                res[k] = type(e).__name__
+
+        try:
+            async with create_task_group() as tg:
+                tg.start_soon(one, "a", name="w:race_a")
+                tg.start_soon(one, "b", name="w:race_b")
+        finally:
+            sim.log("race_get", ctx=cid, res=[res.get("a"), res.get("b")], closed=ctx.closed)
 
     async def foreign_exit(self, spec: dict, exp: str | None) -> None:
         """Misuse: a context entered by one task is left by another.  Whatever the library
@@ -1350,6 +1400,9 @@ def oracle(sim: Sim, plan: dict) -> list[dict]:
                     v("C13.allowed", key, f"{op} on {c} in state {state} gave {res}, expected {want_res}")
                 if op == "add_resource" and res == "ok" and d.get("visible") is not True:
                     v("C13.effect", key, f"resource added to {c} in state {state} is not visible")
+        elif kind == "race_get":
+            if "cancelled" not in d["res"] and d["res"] != ["ok", "ok"]:
+                v("C13.allowed", "get_race@closing", f"two lookups of one slow factory racing on {d['ctx']} while it was being torn down gave {d['res']}, expected both to get the product")
         elif kind == "foreign_exit":
             if d["before"] != d["exp"] or d["after"] != d["exp"]:
                 v(
@@ -1490,6 +1543,23 @@ class G:
                     body.append(["reg", {"again": rng.choice(earlier), "id": "again", "route": "ctx", "kind": "sync", "body": []}])
             elif r < 0.7:
                 body.append(rpause(rng))
+            elif r < 0.73 and budget[0] > 0 and self.ntask < 6:
+                # a service task that registers callbacks on its OWN context and is then
+                # stopped (cancelled) when the owner is torn down
+                budget[0] -= 1
+                self.ntask += 1
+                cbs = []
+                for _ in range(rng.randint(1, 2)):
+                    self.ncb += 1
+                    c_ = {
+                        "id": f"c{self.ncb}",
+                        "route": rng.choice(("ctx", "mod")),
+                        "kind": rng.choice(("sync", "async")),
+                        "pexc": True,
+                        "body": [],
+                    }
+                    cbs.append(["reg", c_])
+                body.append(["svc", {"name": f"s{self.ntask}", "body": cbs + [rpause(rng, 0.2)], "forever": True, "action": "cancel"}])
             elif r < 0.8 and depth < 3 and self.nctx < 6:
                 ch = self.block(depth + 1, budget)
                 ch["catch"] = rng.random() < 0.7
@@ -1700,6 +1770,9 @@ def gen_c13(g: G) -> dict:
                 body.append(["ops", ops("open"), None])
             elif r < 0.5:
                 body.append(rpause(rng))
+            elif r < 0.55:
+                g.ncb += 1
+                body.append(["race", {"id": f"q{g.ncb}"}])
             elif r < 0.8:
                 cb = g.cb()
                 if cb["kind"] != "sync" and rng.random() < 0.7:
